@@ -11,6 +11,8 @@ import (
 
 	"github.com/bluenviron/gohlslib/v2/internal/zzverif/m3u"
 	"github.com/bluenviron/gohlslib/v2/internal/zzverif/vh"
+	"github.com/bluenviron/gohlslib/v2/pkg/codecs"
+	"github.com/bluenviron/mediacommon/v2/pkg/codecs/mpeg4audio"
 	"github.com/bluenviron/mediacommon/v2/pkg/formats/fmp4"
 )
 
@@ -23,6 +25,8 @@ type c19Src struct {
 	Clock int    `json:"clock"` // track clock rate
 	D     int    `json:"d"`     // sample duration in ticks
 	Label string `json:"label"`
+	Batch int    `json:"batch,omitempty"` // aac: access units per WriteMPEG4Audio call (default 1)
+	SBR   bool   `json:"sbr,omitempty"`   // aac: HE-AAC with explicit SBR signalling (extension sample rate = 2 x Clock)
 }
 
 type c19Case struct {
@@ -53,6 +57,21 @@ func c19Sources(tier string) []c19Src {
 		c19Src{Kind: "h264", Clock: 90000, D: 3754, Label: "~23.976fps"})
 	for _, sr := range []int{96000, 88200, 64000, 48000, 44100, 32000, 24000, 22050, 16000, 12000, 11025, 8000, 7350} {
 		out = append(out, c19Src{Kind: "aac", Clock: sr, D: 1024, Label: fmt.Sprintf("aac%d", sr)})
+	}
+	// several access units per call, and HE-AAC (1024 core samples per access unit whatever the extension rate says)
+	for _, sr := range []int{44100, 24000, 22050} {
+		for _, sbr := range []bool{false, true} {
+			for _, b := range []int{1, 2, 3} {
+				if b == 1 && !sbr {
+					continue
+				}
+				l := fmt.Sprintf("aac%dx%d", sr, b)
+				if sbr {
+					l = fmt.Sprintf("heaac%dx%d", sr, b)
+				}
+				out = append(out, c19Src{Kind: "aac", Clock: sr, D: 1024, Label: l, Batch: b, SBR: sbr})
+			}
+		}
 	}
 	for _, t := range []int{120, 240, 480, 960, 1920, 2880} {
 		out = append(out, c19Src{Kind: "opus", Clock: 48000, D: t, Label: fmt.Sprintf("opus%.1fms", float64(t)/48)})
@@ -117,6 +136,11 @@ func c19RunCase(cs c19Case) (viols [][2]string, nplaylists int, outcome string) 
 		aac := newTrack(trackSpec{Kind: "aac48"})
 		_ = aac
 		setAACRate(tk, cs.Src.Clock)
+		if cs.Src.SBR {
+			c := tk.Codec.(*codecs.MPEG4Audio)
+			c.Config.ExtensionType = mpeg4audio.ObjectTypeSBR
+			c.Config.ExtensionSampleRate = 2 * cs.Src.Clock
+		}
 	case "opus":
 		tk = newTrack(trackSpec{Kind: "opus"})
 	}
@@ -208,7 +232,18 @@ func c19RunCase(cs c19Case) (viols [][2]string, nplaylists int, outcome string) 
 			}
 			err = m.WriteH264(tk, verifT0, dts, mi.videoData(u))
 		case "aac":
-			err = m.WriteMPEG4Audio(tk, verifT0, dts, [][]byte{{0x21, byte(i >> 8), byte(i)}})
+			if b := cs.Src.Batch; b > 1 {
+				if i%b != 0 {
+					continue
+				}
+				var aus [][]byte
+				for k := 0; k < b; k++ {
+					aus = append(aus, []byte{0x21, byte((i + k) >> 8), byte(i + k)})
+				}
+				err = m.WriteMPEG4Audio(tk, verifT0, dts, aus)
+			} else {
+				err = m.WriteMPEG4Audio(tk, verifT0, dts, [][]byte{{0x21, byte(i >> 8), byte(i)}})
+			}
 		case "opus":
 			err = m.WriteOpus(tk, verifT0, dts, [][]byte{{opusTOC(cs.Src.D), byte(i >> 8), byte(i)}})
 		}
